@@ -195,6 +195,67 @@ def _partial_removal(ctx, rep, pnames, n, label='partial'):
                             dict(F.case_of(seed, pname, done), oracle='mirror'))
 
 
+def _designed_two_fit_hardeners(rep):
+    """Two fleet mates with a reactive armor hardener each and an armor burst on one of them; everything is read, then
+    the burst module is removed: both fits (whichever the change messages are filed under) must read as a fleet built
+    without the burst - the hardener of the *other* fit listens on its own fit only."""
+    from eos import Fit, Fleet, ModuleHigh, ModuleLow, Ship, SolarSystem, State
+    from eos.const.eos import ModAffecteeFilter, ModAggregateMode, ModOperator
+    from eos.const.eve import AttrId, EffectCategoryId, EffectId
+    from eos.eve_obj.buff_template import WarfareBuffTemplate
+    from harness import mem
+    from props import c12
+    u = c12.Uni(False)
+    ch = u.ch
+    for a in (AttrId.warfare_buff_1_id, AttrId.warfare_buff_1_value):
+        ch.mkattr(attr_id=a)
+    ch.buffs[7] = {WarfareBuffTemplate(buff_id=7, affectee_filter=ModAffecteeFilter.item, affectee_attr_id=u.res['expl'],
+                                       operator=ModOperator.post_percent, aggregate_mode=ModAggregateMode.minimum)}
+    burst = ch.mkeffect(effect_id=EffectId.module_bonus_warfare_link_armor, category_id=EffectCategoryId.active)
+    burst_t = ch.mktype(category_id=u.cat.module, attrs={AttrId.warfare_buff_1_id: 7, AttrId.warfare_buff_1_value: -30},
+                        effects=[burst], default_effect=burst).id
+
+    def build(with_burst):
+        ss = SolarSystem(source=mem.source(ch))
+        fits = [Fit(solar_system=ss), Fit(solar_system=ss)]
+        fl = Fleet()
+        rahs = []
+        for f in fits:
+            f.ship = Ship(u.ship_type([0.5, 0.65, 0.75, 0.9]))
+            m = ModuleLow(u.rah_type([0.85, 0.85, 0.85, 0.85], 6, 10000), state=State.active)
+            f.modules.low.append(m)
+            rahs.append(m)
+            fl.fits.add(f)
+        b = None
+        if with_burst:
+            b = ModuleHigh(burst_t, state=State.active)
+            fits[0].modules.high.append(b)
+        return fits, rahs, b
+
+    def read(fits, rahs, hardener_first=True):
+        with c12.rah_log():
+            out = []
+            for f, m in zip(fits, rahs):
+                a = [round(m.attrs[u.res[t]], 9) for t in c12.T] if hardener_first else None
+                b = [round(f.ship.attrs[u.res[t]], 9) for t in c12.T]
+                a = a or [round(m.attrs[u.res[t]], 9) for t in c12.T]
+                out.append(a + b)
+            return out
+    for booster_first, hardener_first in ((True, True), (False, True), (True, False), (False, False)):
+        fits, rahs, b = build(True)
+        if not booster_first:
+            fits, rahs = fits[::-1], rahs[::-1]
+        read(fits, rahs, hardener_first)
+        b._fit.modules.high.remove(b)
+        got = read(fits, rahs, hardener_first)
+        f2, r2, _ = build(False)
+        want = read(f2, r2, hardener_first)
+        rep.case(kind='oracle-designed-two-fit-hardeners', sig=('two-fit-hardeners', booster_first, hardener_first))
+        if got != want:
+            rep.violate('after the burst module was removed the fleet reads %r, a fleet built without it %r '
+                        '(the removed module still has influence)' % (got, want), {'designed': 'two-fit-hardeners'})
+
+
 def _reuse(rep, w, items, seed, pname, h):
     from eos import Ship, Skill, Implant, Booster, Subsystem, Rig, Drone, FighterSquad, ModuleHigh, ModuleMid, ModuleLow
     w2 = W.World(w.unis, w.src if w.src is not None else 0)
@@ -288,6 +349,7 @@ def _k1_residue_witness(rep):
 def oracle(ctx):
     # the emptiness walk itself runs inside `correspondence` (it needs the same histories)
     _k1_residue_witness(ctx.report)
+    _designed_two_fit_hardeners(ctx.report)
     _partial_removal(ctx, ctx.report, ['projheavy', 'fleetheavy', 'basic', 'pymods'], ctx.n(35, 500))
 
 
